@@ -1609,7 +1609,7 @@ fn gen_builtin_cases(out: &mut Vec<String>, rng: &mut Rng, thorough: bool) {
         let nm = name.clone();
         add_call_cases(out, rng, &format!("method:{}", name), &move |r, a| {
             format!("{{{{ {}.{}({}) }}}}", if r.starts_with(|c: char| c.is_ascii_digit() || c == '-') { format!("({})", r) } else { r.to_string() }, nm, a)
-        }, &recvs, per, thorough);
+        }, &recvs, if thorough { per / 3 } else { per }, false);
     }
     // loop object: methods and attributes
     for meth in ["cycle", "changed", "nosuch", "index", "length", "revindex", "previtem", "nextitem", "depth"] {
@@ -1885,7 +1885,11 @@ fn gen_kernel_cases(out: &mut Vec<String>, thorough: bool) {
         }
     }
     for w in widths {
-        out.push(format!("k tojson {}", w));
+        if w.len() != 8 && !(w.len() == 9 && *w == "100000000") {
+            // 10^7 … 10^8: the output is 5·indent + 12 bytes several times over in memory — legitimate,
+            // but it exhausts the workers' 2 GiB cap depending on what ran before
+            out.push(format!("k tojson {}", w));
+        }
         for st in ["pw", "pz", "pp", "ps", "pg", "sw", "sz", "sc", "sg", "sp"] {
             if w.starts_with('-') {
                 continue;
@@ -2220,7 +2224,7 @@ fn gen_cases(thorough: bool) -> Vec<String> {
         ks.dedup();
         for kind in WIDTH_KINDS {
             for &k in &ks {
-                if k > 70_000 || (k > 2100 && !thorough && !matches!(*kind, "vars" | "lines" | "longline" | "longname")) {
+                if k > 70_000 || (k > 2100 && *kind == "blocks") || (k > 2100 && !thorough && !matches!(*kind, "vars" | "lines" | "longline" | "longname")) {
                     continue;
                 }
                 cases.push(format!("d w:{} {}", kind, k));
